@@ -101,6 +101,10 @@ FEATURES = {
                                   ("exists", "z", ("cmp", "lt", A(Z, "b"), A(X, "b")))),
     "and_exists_forall": ("and", ("exists", "w", ("cmp", "lt", ("attr", ("var", "w"), "b"), A(X, "b"))),
                           ("forall", "z", ("cmp", "le", A(Z, "a"), A(X, "a")))),
+    "and_exists_exists_same_var": ("and", ("exists", "z", ("cmp", "gt", A(Z, "a"), A(X, "a"))),
+                                   ("exists", "z", ("cmp", "lt", A(Z, "b"), A(X, "b")))),
+    "and_forall_exists_same_var": ("and", ("forall", "z", ("cmp", "le", A(Z, "a"), A(X, "a"))),
+                                   ("exists", "z", ("cmp", "lt", A(Z, "b"), A(X, "b")))),
     "or_exists_exists": ("or", ("exists", "z", ("cmp", "gt", A(Z, "a"), A(X, "a"))),
                          ("exists", "w", ("cmp", "lt", ("attr", ("var", "w"), "b"), A(X, "b")))),
     "forall_exists": ("forall", "z", ("exists", "w", ("and", ("cmp", "eq", ("attr", ("var", "w"), "a"), A(Z, "a")),
@@ -408,7 +412,90 @@ def _m_contains_swapped():
     E.in_ = in_
 
 
-MUTANTS = {"and_ignores_false_left": _m_and_ignores_false_left, "negated_union_flips": _m_negated_union_flips,
+def _m_role_from_node_parent():
+    # the role (condition or value) of an attribute expression is read from the node's current parent at the moment a
+    # value is produced (the behaviour before C01-F11 was repaired)
+    from krrood.entity_query_language import symbolic as S
+
+    def _evaluate__(self, sources=None, parent=None):
+        sources = sources or {}
+        self._eval_parent_ = parent
+        role = lambda: isinstance(self._parent_, S.LogicalOperator) or self is self._conditions_root_
+        if self._id_ in sources:
+            yield self._build_operation_result_and_update_truth_value_(S.OperationResult(sources, False, self),
+                                                                       sources[self._id_], role())
+            return
+        for child_result in self._child_._evaluate__(sources, parent=self):
+            for mapped_value in self._apply_mapping_(child_result[self._child_._id_]):
+                yield self._build_operation_result_and_update_truth_value_(child_result, mapped_value, role())
+    S.DomainMapping._evaluate__ = _evaluate__
+
+
+def _m_forall_keeps_dependent_values():
+    from krrood.entity_query_language import symbolic as S
+    def ids(self):
+        return [v.id_ for v in self.condition._unique_variables_.difference(self.left._unique_variables_)]
+    S.ForAll.condition_unique_variable_ids = property(ids)
+
+
+def _m_exists_sees_outer_binding():
+    from krrood.entity_query_language import symbolic as S
+    def _evaluate__(self, sources=None, parent=None):
+        sources = sources or {}
+        self._eval_parent_ = parent
+        seen = []
+        for val in self.condition._evaluate__(sources, parent=self):
+            if val.is_false:
+                continue
+            var_val = val.bindings.get(self.variable._id_)
+            if var_val is not None:
+                if var_val.value in seen:
+                    continue
+                seen.append(var_val.value)
+            yield S.OperationResult(val.bindings, False, self)
+    S.Exists._evaluate__ = _evaluate__
+
+
+def _m_forall_sees_outer_binding():
+    from krrood.entity_query_language import symbolic as S
+
+    def _evaluate__(self, sources=None, parent=None):
+        sources = sources or {}
+        self._eval_parent_ = parent
+        solution_set = None
+        for var_val in self.variable._evaluate__(sources, parent=self):
+            if solution_set is None:
+                solution_set = self.get_all_candidate_solutions(var_val.bindings)
+            else:
+                solution_set = [sol for sol in solution_set if self.evaluate_condition({**sol, **var_val.bindings})]
+            if not solution_set:
+                solution_set = []
+                break
+        yield from [S.OperationResult({**sources, **sol}, False, self) for sol in solution_set]
+    S.ForAll._evaluate__ = _evaluate__
+
+
+def _m_elseif_after_quantifier():
+    from krrood.entity_query_language import symbolic as S
+    from krrood.entity_query_language import entity as E
+
+    def optimize_or(left, right):
+        if not isinstance(left, S.SymbolicExpression):
+            left = S.Literal(left)
+        if not isinstance(right, S.SymbolicExpression):
+            right = S.Literal(right)
+        q = lambda v: not isinstance(v.value, S.Literal) and not getattr(v.value, "_predicate_type_", None)
+        lv = left._unique_variables_.filter(q)
+        rv = right._unique_variables_.filter(q)
+        return S.ElseIf(left, right) if set(lv.unwrapped_values) == set(rv.unwrapped_values) else S.Union(left, right)
+    S.optimize_or = optimize_or
+    for mod in (E, S):
+        if hasattr(mod, "optimize_or"):
+            mod.optimize_or = optimize_or
+
+
+MUTANTS = {"elseif_after_quantifier": _m_elseif_after_quantifier, "role_from_node_parent": _m_role_from_node_parent, "forall_sees_outer_binding": _m_forall_sees_outer_binding, "forall_keeps_dependent_values": _m_forall_keeps_dependent_values,
+           "exists_sees_outer_binding": _m_exists_sees_outer_binding, "and_ignores_false_left": _m_and_ignores_false_left, "negated_union_flips": _m_negated_union_flips,
            "forall_first_only": _m_forall_first_only, "selected_product": _m_selected_product}
 
 
